@@ -200,6 +200,8 @@ pub fn frames(args: &Args) -> i32 {
     let mut rep = Report::new();
     let interpreted = |id: u64| id <= 11 || id == 0x92;
     for b in read_ndjson(args.req("in")) {
+        // a replay file of an earlier failure carries the frame inside the behaviour
+        let b = if b.get("frame").is_some() { b["frame"].clone() } else { b };
         let (id, len) = (b["id"].as_u64().unwrap(), b["len"].as_u64().unwrap() as usize);
         rep.case(&b, id >= 128 || len >= 128);
         let want: Vec<u8> = b["hdr"].as_array().unwrap().iter().map(|x| x.as_u64().unwrap() as u8).collect();
